@@ -393,6 +393,20 @@ C11_RULE = ("SMT (z3 5.1, QF_BV): the grammar source of /repo is read on every r
             "IDL::try_from natively before it is reported.")
 
 
+C11_MIR_MODELS = [
+    "MIR symbolic execution (smt/mirsym.py): callees are replaced by models with their documented contract:",
+    "BTreeMap::new / Vec::new / HashSet::new -> empty association list / sequence / collection",
+    "<Vec<T> as IntoIterator>::into_iter, <IntoIter<T> as Iterator>::next -> the elements in order, then None",
+    "<Vec<&str> as Deref>::deref + <[&str]>::contains(x) -> some element equals x",
+    "Vec::push -> appended at the end",
+    "BTreeMap::insert(k, v) -> Some(old value) and the value replaced if an equal key is present, else None and the entry added",
+    "HashSet<String>::insert -> the message is recorded (messages are not compared with each other)",
+    "fmt::rt::Argument::new_display / fmt::Arguments::new / alloc::fmt::format / must_use -> a message value that remembers "
+    "the values it was formatted from",
+    "drop, StorageLive/Dead, unwind edges -> no effect (the models do not panic)",
+]
+
+
 def c11_h(name):
     prefix, kmax, suffix, what, tiers, mode = _C11[name]
     return H(name, engine="smt", script="c11.py", tiers=tiers, timeout=(900, 5400), functions=C11_FUNCS,
@@ -414,7 +428,15 @@ CHECKS["C11"] = {
                    "(native build) and through the encoding with concrete bytes; one disagreement makes the whole check "
                    "inconclusive",
           bounds="corpus of a few hundred to a few thousand ASCII texts", stubs=[]),
-    ] + [c11_h(n) for n in _C11],
+    ] + [c11_h(n) for n in _C11] + [
+        H("c11_ft_%d" % n, engine="smt", script="c11_dup.py", tiers=t, timeout=(900, 3600),
+          functions=["varlink_parser::IDL::from_token (rustc MIR, every basic block reachable without unwinding)"],
+          symbolic="a list of %d members: the kind (method / type / error) and the name (one of %d) of each are z3 variables" % (n, n),
+          bounds="member lists of exactly %d members; names from a pool of %d (enough for all-distinct and every collision pattern)" % (n, n),
+          stubs=C11_MIR_MODELS)
+        for n, t in ((1, ("quick", "thorough")), (2, ("quick", "thorough")), (3, ("quick", "thorough")),
+                     (4, ("quick", "thorough")), (5, ("thorough",)))
+    ],
     "assumptions": [
         "reduced claim: syntactic acceptance (IDL::try_from does not return Error::Parse) == membership in the reference "
         "grammar, for the text shapes listed under samples; the reference's lexical rules are the documented varlink "
@@ -423,10 +445,15 @@ CHECKS["C11"] = {
         "ASCII texts only: the non-ASCII blanks and line separators of the whitespace / eol_r rules are outside",
         "what is encoded is the grammar *text* under rust-peg's documented recognition semantics, not the Rust code the "
         "peg macro expands to; the translator is validated on every run against the real parser (c11_translation_validated)",
-        "action blocks are not encoded: `mirrors the source` is decided for member kinds, names and order by the Kani "
-        "harnesses on IDL::from_token, not for field types and documentation strings",
+        "action blocks of the grammar are not encoded: `mirrors the source` is decided for member kinds, names and order by "
+        "the c11_ft_<n> instances on IDL::from_token's MIR, not for field types and documentation strings",
+        "c11_ft_<n>: the last step of IDL::try_from (a non-empty error set becomes Err(Error::Idl(sorted messages))) is not "
+        "encoded; it is exercised by the native replay of witnesses only",
     ],
 }
+
+# Duplicate detection / order of appearance in IDL::from_token (harness/parser/c11.rs, not mounted) was attempted
+# twice with Kani and is not part of the claim: see DESIGN.md section 3/C11.
 
 CHECKS["C02"] = {
     "design_ref": "3/C02",
